@@ -16,6 +16,7 @@ def parseArg (t : String) : Option Arg :=
   | 'd' :: r => (parseHexNat (String.ofList r)).map Arg.dbl
   | 's' :: r => (parseHex (String.ofList r)).map Arg.str
   | 'x' :: r => (parseHex (String.ofList r)).map Arg.str
+  | 'G' :: r => (parseHex (String.ofList r)).map Arg.gstr
   | _ => none
 
 def parseArgs : List String → Option (List Arg)
